@@ -220,6 +220,28 @@ func main() {
 			}
 		}
 	}
+	// strings and octet arrays with NUL bytes at the end / start / everywhere
+	for _, ie := range vars {
+		for _, n := range []int{1, 2, 5, 254, 255, 256} {
+			for pat := 0; pat < 3; pat++ {
+				b := mk(ie, n)
+				switch pat {
+				case 0:
+					b[n-1] = 0
+					if n > 2 {
+						b[n-2] = 0
+					}
+				case 1:
+					b[0] = 0
+				case 2:
+					for i := range b {
+						b[i] = 0
+					}
+				}
+				d.one(ie, b)
+			}
+		}
+	}
 	tops := []int{65530, 65531, 65532, 65533, 65534, 65535}
 	if !thorough {
 		tops = []int{65534, 65535}
